@@ -1272,6 +1272,35 @@ def _native_histories(tier="quick", seed=0):
             if bad:
                 break
         rec("C06.native.histories[%s]" % label, bad)
+    # time-node ids: a slide that already carries an animation tree (ids anywhere in it, nested, non-contiguous), then movies are added
+    from pptx.oxml import parse_xml
+    from pptx.oxml.ns import nsdecls
+
+    bad = None
+    trees = [
+        '<p:timing %s><p:tnLst><p:par><p:cTn id="1" dur="indefinite" restart="never" nodeType="tmRoot"><p:childTnLst><p:seq concurrent="1" nextAc="seek"><p:cTn id="2" dur="indefinite" '
+        'nodeType="mainSeq"><p:childTnLst><p:par><p:cTn id="3" fill="hold"><p:childTnLst><p:par><p:cTn id="4" fill="hold"><p:childTnLst><p:par><p:cTn id="5" presetID="1" presetClass="entr" '
+        'presetSubtype="0" fill="hold" nodeType="clickEffect"><p:childTnLst><p:set><p:cBhvr><p:cTn id="6" dur="1" fill="hold"/><p:tgtEl><p:spTgt spid="2"/></p:tgtEl></p:cBhvr></p:set>'
+        '</p:childTnLst></p:cTn></p:par></p:childTnLst></p:cTn></p:par></p:childTnLst></p:cTn></p:par></p:childTnLst></p:cTn></p:seq></p:childTnLst></p:cTn></p:par></p:tnLst></p:timing>',
+        '<p:timing %s><p:tnLst><p:par><p:cTn id="9" dur="indefinite" restart="never" nodeType="tmRoot"><p:childTnLst><p:seq><p:cTn id="40" dur="indefinite" nodeType="mainSeq">'
+        '<p:childTnLst><p:par><p:cTn id="2" fill="hold"/></p:par></p:childTnLst></p:cTn></p:seq></p:childTnLst></p:cTn></p:par></p:tnLst></p:timing>',
+    ]
+    for ti, tree in enumerate(trees):
+        prs = Presentation()
+        sl = prs.slides.add_slide(prs.slide_layouts[6])
+        sl.shapes.add_textbox(0, 0, 10, 10)
+        sl._element.append(parse_xml(tree % nsdecls("p")))
+        for k in range(3):
+            evals[0] += 1
+            try:
+                sl.shapes.add_movie(io.BytesIO(b"\x00\x00\x00\x18ftypmp42" + bytes([k])), 0, 0, 100, 100, poster_frame_image=None, mime_type="video/mp4")
+            except Exception as e:
+                bad = bad or "slide with animation tree #%d: add_movie raised %r" % (ti, e)
+                break
+            ids = [int(x) for x in sl._element.xpath("//p:cTn/@id")]
+            if len(set(ids)) != len(ids):
+                bad = bad or "slide with animation tree #%d: after %d movie(s) the time-node ids are %s" % (ti, k + 1, ids)
+    rec("C06.native.time_node_ids_unique_on_slides_with_animations", bad)
     return {"contract": "C06.native_histories", "prop": "C06", "status": "ok", "obligations": obls, "paths": 0, "assumed": [], "functions": {},
             "notes": [], "solver_s": 0.0, "wall_s": _t.time() - t0,
             "bounded": {"name": "C06.native_histories", "bound": "random histories of %d additions (13 operation kinds incl. nested groups, turbo mode, shared and re-pointed hyperlinks) "
